@@ -53,3 +53,24 @@ package cdb
 //@ func Cdb.match
 //@ pure
 //@ flag skip bounds
+
+// writer.Close (C16): building the hash tables does not reorder or rewrite the per-table slot lists — the
+// put order of records with the same hash (hence of the values of one key) is what FindNext reproduces.
+// (The probing loop itself — every slot lands in a reachable cell — is not under contract yet.)
+//@ func writer.Close
+//@ flag skip bounds,nil,unreachable-panic,div
+//@ requires w.htables != nil && len(w.buf) >= 8
+//@ modifies w
+//@ modifies w.buf[0:8]
+//@ loop 1 invariant w.buf == old(w.buf) && w.htables == old(w.htables) && len(w.buf) >= 8
+//@ loop 2 invariant w.buf == old(w.buf) && w.htables == old(w.htables)
+//@ loop 3 invariant w.buf == old(w.buf) && w.htables == old(w.htables)
+//@ loop 4 invariant w.buf == old(w.buf) && w.htables == old(w.htables)
+//@ ensures[tables] w.htables == old(w.htables) && forall(t, 0, 256, same(w.htables[t], old(w.htables[t])))
+//@ ensures[putorder] forall(t, 0, 256, forall(i, 0, len(w.htables[t]), w.htables[t][i] == old(w.htables[t][i])))
+
+//@ func writeSlots
+//@ flag skip unreachable-panic
+//@ requires len(buf) >= 8
+//@ modifies buf[0:8]
+//@ loop 0 invariant 0 <= idx && idx <= len(slots)
